@@ -195,6 +195,29 @@ def spec_call(ex, e, fr):
         v = ex.ev(e.args[0], fr)
         ty = T(e.args[2].value) if len(e.args) > 2 else spec.field_type(None, e.args[1].value)
         return ex.rd(v.t, e.args[1].value, ty)
+    if name == "finite":
+        from . import elem as E
+        return vbool(E.is_finite(ex, ex.ev(e.args[0], fr)))
+    if name == "not_nan":
+        from . import elem as E
+        x_ = E.lift(ex, ex.ev(e.args[0], fr))
+        return vbool(z3.Not(z3.fpIsNaN(x_)) if E.tier(ex) == "fp64" else z3.BoolVal(True))
+    if name == "lower_of":
+        return Val(Ty("elem"), ex.ev(e.args[0], fr).meta["lower"])
+    if name == "upper_of":
+        return Val(Ty("elem"), ex.ev(e.args[0], fr).meta["upper"])
+    if name == "rdiv":               # floor(a / r) as an integer (real tier): the quotient numpy.floor_divide / numpy.mod use
+        from . import elem as E
+        a_, r_ = (E.lift(ex, ex.ev(x, fr)) for x in e.args)
+        return vint(E.uf("np_floordiv_real", z3.RealSort(), z3.RealSort(), z3.IntSort())(a_, r_))
+    if name == "times":              # integer * element (real tier)
+        k_ = ex.ev(e.args[0], fr)
+        from . import elem as E
+        return Val(Ty("elem"), z3.ToReal(k_.t) * E.lift(ex, ex.ev(e.args[1], fr)))
+    if name == "congruent":          # congruent(a, b, r): a - b is an integer multiple of r   (real tier)
+        a_, b_, r_ = (ex.ev(x, fr).t for x in e.args)
+        k_ = ex.fresh("k_mult", INT)
+        return vbool(z3.Exists([k_], a_ - b_ == z3.ToReal(k_) * r_))
     if name == "strlit":
         from .values import vstr
         return vstr(e.args[0].value)
